@@ -381,6 +381,9 @@ def run(chk):
     chk.guard(rule_rotation, chk, prog)
     chk.guard(rule_tree_flip, chk, prog)
     chk.guard(rule_merge_join, chk, prog)
+    from ..rules import mirrors
+    r_m = chk.rule("MIRROR", "the x / y twins of dialect::Node (coordinate write-back from the solver rectangle) stay mirror images (tables/mirrors.json)", floor=1)
+    mirrors.check(r_m, prog, ["dialect::Node::"])
 
 
 _KEYSETS = [([1, 3, 5, 7], [2, 3, 4, 7, 9]), ([2, 3, 4, 7, 9], [1, 3, 5, 7]), ([1, 2, 3], [1, 2, 3]), ([5, 6, 7, 8], [1, 2, 6]), ([1, 2, 6], [5, 6, 7, 8]),
